@@ -769,6 +769,18 @@ func (m *mappedFile) newCounter(name string) (v *atomic.Uint64, m1 *mappedFile, 
 		start, end = m.place(limit, name)
 		debugPrintf("place %s at %#x-%#x\n", name, start, end)
 		if int64(end) > int64(len(m.mapping.Data)) {
+			if int64(limit) > int64(len(m.mapping.Data)) {
+				// Another process has extended the file, or the limit is
+				// corrupt. The limit never exceeds the size of the file: do
+				// not grow the file to whatever a corrupt limit says.
+				info, err := m.f.Stat()
+				if err != nil {
+					return nil, nil, err
+				}
+				if int64(limit) > info.Size() {
+					return nil, nil, errCorrupt
+				}
+			}
 			newM, err := m.extend(end)
 			if err != nil {
 				return nil, nil, err
